@@ -297,8 +297,12 @@ fn gen_case(rng: &mut Rng, out: &mut Out, id: String, tier: &str) {
             let fee = *rng.pick(FEES);
             let id = next_id;
             next_id += 1;
+            // fills, too, may be delivered out of exchange-time order (partial fills of one order
+            // swapped, a late or replayed fill after a reconnect): the estimate after a fill does not
+            // depend on the fill's timestamp
+            let t_fill = if rng.chance(stale_pct) { rng.range(0, time.max(1)) } else { time };
             out.line(format!(
-                "fill {id} {instr} {time} {} {price} {} {fee}",
+                "fill {id} {instr} {t_fill} {} {price} {} {fee}",
                 if buy { "B" } else { "S" },
                 qty_str(q)
             ));
